@@ -343,6 +343,74 @@ macro "jnoval_struct" : tactic =>
       | (with_reducible apply JNoVal.bind; intro _)
       | with_reducible apply JNoVal.ite))
 
+theorem jbind_ret {β : Type} (m : JM β) : (m >>= fun t => Except.ok t) = m := by cases m <;> rfl
+theorem bind_ret {β : Type} (m : M β) : (m >>= fun t => Except.ok t) = m := by cases m <;> rfl
+
+/-! ## loops: related bodies give related loops (no unrolling) -/
+
+/-- one state-transforming step on both sides: the same new state, or both models stop, or the C side has undefined behaviour -/
+def StepRel {σ : Type} (j : JM σ) (c : M σ) : Prop :=
+  (∃ st, j = Except.ok st ∧ c = Except.ok st) ∨ (∃ a b, c = Except.error (.nf a) ∧ j = Except.error (.nf b)) ∨ (∃ a, c = Except.error (.ub a))
+
+theorem StepRel.ok {σ : Type} {st : σ} : StepRel (Except.ok st : JM σ) (Except.ok st) := Or.inl ⟨st, rfl, rfl⟩
+theorem StepRel.ok_eq {σ : Type} {a b : σ} (h : a = b) : StepRel (Except.ok a : JM σ) (Except.ok b) := h ▸ StepRel.ok
+theorem StepRel.nf {σ : Type} {a b : String} : StepRel (Except.error (.nf b) : JM σ) (Except.error (.nf a)) := Or.inr (Or.inl ⟨a, b, rfl, rfl⟩)
+theorem StepRel.ub {σ : Type} {j : JM σ} {a : String} : StepRel j (Except.error (.ub a)) := Or.inr (Or.inr ⟨a, rfl⟩)
+
+theorem foldl_rel {σ : Type} (P : σ → Prop) (bj : Nat → σ → JM σ) (bc : Nat → σ → M σ) :
+    ∀ (l : List Nat) (init : σ), P init →
+      (∀ k ∈ l, ∀ st, P st → StepRel (bj k st) (bc k st) ∧ ∀ st', bj k st = Except.ok st' → P st') →
+      (∃ st, l.foldlM (fun s k => bj k s) init = Except.ok st ∧ l.foldlM (fun s k => bc k s) init = Except.ok st ∧ P st) ∨
+      (∃ a b, l.foldlM (fun s k => bc k s) init = Except.error (.nf a) ∧ l.foldlM (fun s k => bj k s) init = Except.error (.nf b)) ∨
+      (∃ a, l.foldlM (fun s k => bc k s) init = Except.error (.ub a)) := by
+  intro l
+  induction l with
+  | nil => intro init hP _; exact Or.inl ⟨init, rfl, rfl, hP⟩
+  | cons k ks ih =>
+    intro init hP hstep
+    obtain ⟨hr, hp⟩ := hstep k (List.mem_cons_self) init hP
+    rcases hr with ⟨st, hj, hc⟩ | ⟨a, b, hc, hj⟩ | ⟨a, hc⟩
+    · have := ih st (hp st hj) (fun k' hk' => hstep k' (List.mem_cons_of_mem _ hk'))
+      simp only [List.foldlM_cons, hj, hc, jbind_ok, bind_ok]
+      exact this
+    · refine Or.inr (Or.inl ⟨a, b, ?_, ?_⟩)
+      · simp only [List.foldlM_cons, hc, bind_error]
+      · simp only [List.foldlM_cons, hj, jbind_error]
+    · refine Or.inr (Or.inr ⟨a, ?_⟩)
+      simp only [List.foldlM_cons, hc, bind_error]
+
+/-- `for (i = lo; i < hi; i++)` on both sides with related bodies and an invariant `P` of the state -/
+theorem loop_rel {σ : Type} (P : σ → Prop) (lo hi : Int) (init : σ) (bj : Int → σ → JM σ) (bc : Int → σ → M σ) (hP : P init)
+    (hstep : ∀ i st, lo ≤ i → i < hi → P st → StepRel (bj i st) (bc i st) ∧ ∀ st', bj i st = Except.ok st' → P st') :
+    (∃ st, jloopM lo hi init bj = Except.ok st ∧ loopM lo hi init bc = Except.ok st ∧ P st) ∨
+    (∃ a b, loopM lo hi init bc = Except.error (.nf a) ∧ jloopM lo hi init bj = Except.error (.nf b)) ∨
+    (∃ a, loopM lo hi init bc = Except.error (.ub a)) := by
+  unfold jloopM loopM
+  apply foldl_rel P (fun k st => bj (lo + (k : Int)) st) (fun k st => bc (lo + (k : Int)) st) _ init hP
+  intro k hk st hst
+  have hk' : k < (hi - lo).toNat := List.mem_range.mp hk
+  exact hstep (lo + k) st (by omega) (by omega) hst
+
+/-- a loop followed by the rest of the function, on both sides -/
+theorem JRel.loop_then {σ : Type} (P : σ → Prop) {lo hi : Int} {init : σ} {bj : Int → σ → JM σ} {bc : Int → σ → M σ}
+    {kj : σ → JM ℝ} {kc : σ → M (ℝ × Slot)} {s : Slot} (hP : P init)
+    (hstep : ∀ i st, lo ≤ i → i < hi → P st → StepRel (bj i st) (bc i st) ∧ ∀ st', bj i st = Except.ok st' → P st')
+    (hk : ∀ st, P st → JRel (kj st) (kc st) s) :
+    JRel (jloopM lo hi init bj >>= kj) (loopM lo hi init bc >>= kc) s := by
+  rcases loop_rel P lo hi init bj bc hP hstep with ⟨st, hj, hc, hp⟩ | ⟨a, b, hc, hj⟩ | ⟨a, hc⟩
+  · rw [hj, hc]; exact hk st hp
+  · rw [hj, hc]; exact JRel.nf
+  · rw [hc]; exact JRel.ub
+theorem JRelI.loop_then {σ : Type} (P : σ → Prop) {lo hi : Int} {init : σ} {bj : Int → σ → JM σ} {bc : Int → σ → M σ}
+    {kj : σ → JM ℝ} {kc : σ → M (ℝ × Slot)} {s : Slot} (hP : P init)
+    (hstep : ∀ i st, lo ≤ i → i < hi → P st → StepRel (bj i st) (bc i st) ∧ ∀ st', bj i st = Except.ok st' → P st')
+    (hk : ∀ st, P st → JRelI (kj st) (kc st) s) :
+    JRelI (jloopM lo hi init bj >>= kj) (loopM lo hi init bc >>= kc) s := by
+  rcases loop_rel P lo hi init bj bc hP hstep with ⟨st, hj, hc, hp⟩ | ⟨a, b, hc, hj⟩ | ⟨a, hc⟩
+  · rw [hj, hc]; exact hk st hp
+  · rw [hj, hc]; exact JRelI.nf
+  · rw [hc]; exact JRelI.ub
+
 /-! ## automation for the intermediate relation `JRelI` -/
 macro "jeqi_leaf" : tactic =>
   `(tactic| first
